@@ -16,7 +16,7 @@ import (
 func init() {
 	register(&Property{
 		ID:        "C02",
-		Explain:   "FOLD with symbolic byte lanes. ws.Cipher is evaluated for every payload length 0..72 (all residues of the 16-byte word loop over several iterations, the 8-byte threshold, head and tail loops) x every stream offset 0..9 (all residues mod 4, offsets >= 4) with payload bytes p_i and key bytes k_j as symbolic lanes; 64-bit words are tracked as 8 byte lanes through the little-endian loads, the shift/or that builds the doubled key, the XOR and the stores, so the result is compared byte by byte with payload[i] XOR key[(offset+i) mod 4]; every index is in range. The remain table must equal [0,3,2,1]. The streaming wrappers and the frame helpers are folded with Cipher as an effect: CipherReader.Read ciphers exactly p[:n] at the running position and advances it by n; CipherWriter.Write ciphers a pooled copy (never p) at the running position, advances by what the destination accepted and returns the buffer to the pool; MaskFrame*/UnmaskFrame* set/clear Masked and Mask, cipher with that same key at offset 0, and the copying variants cipher a fresh copy. NOT decided: payload lengths above 72 (the loops are uniform in the length, but that is an argument, not a decision). The constructors NewCipherReader / NewCipherWriter wrap exactly the stream they are given with exactly the given key at position 0, whatever that stream is; the Mask* helpers are also folded on frames that already carry a key (the payload is ciphered once, with the new key). cipher-call-sites: ws.Cipher is applied only in the five functions whose offset and key discipline a fold examines (a helper with a single caller inherits); a new entry point that ciphers - an io.WriterTo fast path, say - is a violation until a fold covers it.",
+		Explain:   "FOLD with symbolic byte lanes. ws.Cipher is evaluated for every payload length 0..72 (all residues of the 16-byte word loop over several iterations, the 8-byte threshold, head and tail loops) x every stream offset 0..9 (all residues mod 4, offsets >= 4) with payload bytes p_i and key bytes k_j as symbolic lanes; 64-bit words are tracked as 8 byte lanes through the little-endian loads, the shift/or that builds the doubled key, the XOR and the stores, so the result is compared byte by byte with payload[i] XOR key[(offset+i) mod 4]; every index is in range. The remain table must equal [0,3,2,1]. The streaming wrappers and the frame helpers are folded with Cipher as an effect: CipherReader.Read ciphers exactly p[:n] at the running position and advances it by n; CipherWriter.Write ciphers a pooled copy (never p) at the running position, advances by what the destination accepted and returns the buffer to the pool; MaskFrame*/UnmaskFrame* set/clear Masked and Mask, cipher with that same key at offset 0, and the copying variants cipher a fresh copy. NOT decided: payload lengths above 72 (the loops are uniform in the length, but that is an argument, not a decision). The constructors NewCipherReader / NewCipherWriter wrap exactly the stream they are given with exactly the given key at position 0, whatever that stream is; the Mask* helpers are also folded on frames that already carry a key (the payload is ciphered once, with the new key). cipher-call-sites: ws.Cipher is applied only in the five functions whose offset and key discipline a fold examines (a helper with a single caller inherits); a new entry point that ciphers - an io.WriterTo fast path, say - is a violation until a fold covers it. Both wrappers keep the stream position in Cipher's own offset type (a narrower field wraps on long streams). Cipher is also folded around every constant the code compares the payload length with (a fast path for big payloads is evaluated byte by byte like the rest).",
 		Technique: "static analysis: abstract interpretation over go/ssa with a symbolic byte-lane domain (bounded unrolling at concrete lengths, symbolic contents)",
 		Trusted:   []string{"go/ssa + go/types", "the checker's abstract evaluator and its lane algebra (XOR/OR/shift by whole bytes)", "encoding/binary.LittleEndian is little-endian (lane intrinsic)"},
 		Run:       runC02,
